@@ -27,8 +27,8 @@ def obligations(rep, accs, tier, sd, wd):
     q = tier == 'quick'
     cvs = sorted(set(CV_FIXED) | set(rnd.sample(range(3, 250), 3))) if q else list(range(256))
     avs = sorted(set(AV_FIXED) | set(rnd.sample(range(4, 255), 4))) if q else list(range(256))
-    inp = dict(accs=accs, cvs=cvs, avs=avs, thorough=0 if q else 1, ks=[1, 3] if q else [1, 2, 3, 4, 5, 8],
-               xs=[0, -1] if q else [0, 1, 30, -1], lits=[3] if q else [1, 3], limroom=6)
+    inp = dict(accs=accs, cvs=cvs, avs=avs, thorough=0 if q else 1, ks=[1, 3] if q else [1, 2, 3, 5],
+               xs=[0, -1] if q else [0, 1, -1], lits=[3] if q else [1, 3], limroom=6)
     path = os.path.join(wd, 'accs.json')
     with open(path, 'w') as f:
         json.dump(inp, f, separators=(',', ':'))
@@ -86,7 +86,10 @@ def binding(rep, tier, sd, wd):
         c = cases[i]
         if clause == 'spec-no-stop':
             raise MachineryError('scenario %s: the specification run does not reach the stop address' % c['key'])
-        rep.violation('bind:%s:%s' % (c['key'], clause),
+        key = 'bind:%s:%s' % (c['key'], clause)
+        if c['key'].startswith('probe/short-pulse'):
+            key = 'e2e:probe/short-pulse:bind:%s' % clause
+        rep.violation(key,
                       'scenario %s: real run (%s) differs from the plain specification run in %s'
                       % (c['key'], clause.rpartition(':')[0], clause.rpartition(':')[2]),
                       {k: c[k] for k in ('key',) + keys})
